@@ -75,6 +75,9 @@ def cases(tier, seed):
     for o, kind in (("SGD", "unrooted"), ("Adam", "time")):
         out.append({"algorithm": "optimizer", "optim": o, "scheduler": "none", "objective": "map", "tree_keep": kind, "dtype": "torch.float64", "nn": False, "definition": "tensor",
                     "frequency": 2, "seed": int(rng.integers(2**31)), "split": False})
+    # a variational distribution that creates its parameters itself (the weights of a normalising flow: `advi -q realnvp`)
+    out.append({"algorithm": "optimizer", "optim": "Adam", "scheduler": "none", "objective": "realnvp", "dtype": "torch.float64", "nn": False, "definition": "tensor",
+                "frequency": 3, "seed": int(rng.integers(2**31)), "split": False})
     for i, c in enumerate(out):
         if c["algorithm"] == "optimizer" and c["objective"] == "map" and i % 2 == 1 and c["definition"] != "full_like":
             c["plate"] = True
@@ -128,6 +131,15 @@ def optimizer_spec(case, rng, ckpt):
         spec += [{"id": "lik%d" % i, "type": "Distribution", "distribution": "torch.distributions.Normal", "x": "data", "parameters": {"loc": "x.%d" % i, "scale": 0.6 + 0.13 * i}} for i in range(2, k_)]
         spec += [{"id": "joint", "type": "JointDistributionModel", "distributions": ["prior.%d" % i for i in range(k_)] + ["lik", "lik1"] + ["lik%d" % i for i in range(2, k_)]}]
         loss, params = "joint", ["x.%d" % i for i in range(k_)]
+    elif case["objective"] == "realnvp":
+        spec = [{"id": "joint", "type": "JointDistributionModel", "distributions": [
+                    {"id": "target", "type": "Distribution", "distribution": "torch.distributions.Normal", "x": P("x", [0.5, 0.5]),
+                     "parameters": {"loc": P("loc", [1.0, -1.0]), "scale": P("scale", [0.5, 2.0])}}]},
+                {"id": "var", "type": "RealNVP", "x": "x", "n_blocks": 2, "hidden_size": 2, "n_hidden": 1,
+                 "base": {"id": "var.base", "type": "Distribution", "distribution": "torchtree.distributions.Normal", "x": {"id": "var.dummy", "type": "Parameter", "zeros": 2},
+                          "parameters": {"loc": {"id": "var.base.loc", "type": "Parameter", "zeros": 2}, "scale": {"id": "var.base.scale", "type": "Parameter", "ones": 2}}}},
+                {"id": "elbo", "type": "ELBO", "samples": 3, "joint": "joint", "variational": "var"}]
+        loss, params = "elbo", ["var"]
     elif case["objective"] == "map" and case.get("tree_keep"):
         taxa = {"id": "taxa", "type": "Taxa", "taxa": [{"id": nm, "type": "Taxon", "attributes": {"date": 0.0}} for nm in "ABCD"]}
         if case["tree_keep"] == "unrooted":
